@@ -73,13 +73,18 @@ int main(int argc, char** argv)
 	if (cmd == "battery") {            // every length form boundary, then fragmented messages, on one connection (messages must stay in order and separate)
 		int lens[] = { 1, 2, 125, 126, 127, 1000, 32767, 32768, 40000, 65535, 65536, 70000, 3 };
 		for (int n : lens) if (echo_one(s, n, 1)) return 1;
+		{ // payloads ending in 0x00 (and a single 0x00 byte) keep their length
+		  for (int n : { 1, 2, 126, 1000 }) { byte key[4] = { 9, 8, 7, 6 }; ByteArray msg(n); for (int i = 0; i < n; i++) msg[i] = byte(i + 1); msg[n - 1] = 0; ByteArray f; f << byte(0x82); if (n < 126) f << byte(0x80 | n); else f << byte(0x80 | 126) << byte(n >> 8) << byte(n); for (int i = 0; i < 4; i++) f << key[i]; for (int i = 0; i < n; i++) f << byte(msg[i] ^ key[i & 3]);
+			s.write(f.data(), f.length()); if (!s.waitInput(5)) { printf("REPRODUCED no echo of a %d-byte message ending in 0x00 (it arrived empty?)\n", n); return 1; } byte h[2]; readAll(s, h, 2); int len = h[1] & 0x7f; if (len == 126) { byte e[2]; readAll(s, e, 2); len = e[0] << 8 | e[1]; } ByteArray back(len); readAll(s, back.data(), len);
+			if (len != n) { printf("REPRODUCED a %d-byte message ending in 0x00 comes back with %d bytes\n", n, len); return 1; } } }
 		for (int pieces : { 2, 3, 5 }) for (int n : { 10, 300, 70000 }) if (echo_one(s, n, pieces)) return 1;
 		{ // a text message containing U+0000, received by the application as a String
 		  const char txt[] = { 'S', 'a', 0, 'b', 'c', 0, 0, 'd' }; int n = sizeof(txt); byte key[4] = { 1, 2, 3, 4 }; ByteArray f; f << byte(0x81) << byte(0x80 | n); for (int i = 0; i < 4; i++) f << key[i]; for (int i = 0; i < n; i++) f << byte(txt[i] ^ key[i & 3]);
 		  s.write(f.data(), f.length()); if (!s.waitInput(5)) { printf("REPRODUCED no echo of the text message\n"); return 1; } byte h[2]; readAll(s, h, 2); int len = h[1] & 0x7f; ByteArray back(len); readAll(s, back.data(), len);
 		  if (len != n || memcmp(back.data(), txt, n) != 0) { printf("REPRODUCED a text message of %d bytes containing zero bytes reached the application as %d bytes\n", n, len); return 1; } }
 		{ // the same handshake with lower-case header names (HTTP header names are case-insensitive)
-		  Socket s2; if (s2.connect("127.0.0.1", port)) { s2.setBlocking(true);
+		  Socket& s2 = *new Socket();   /* never closed: a closing connection ends in the handler thread tear-down that ASan aborts on (C14, DESIGN 7) */
+		  if (s2.connect("127.0.0.1", port)) { s2.setBlocking(true);
 			s2 << String("GET / HTTP/1.1\r\nhost: localhost\r\nupgrade: websocket\r\nconnection: Upgrade\r\nsec-websocket-key: dGhlIHNhbXBsZSBub25jZQ==\r\nsec-websocket-version: 13\r\n\r\n");
 			bool ok = false, first = true; String status; for (int k = 0; k < 20; k++) { if (!s2.waitInput(5)) break; String line = s2.readLine(); if (first) { status = line; first = false; } if (line.contains("s3pPLMBiTxaQ9kYGzzhZRbK+xOo=")) ok = true; if (line == "\r" || line == "") break; }
 			if (!ok) { printf("REPRODUCED handshake with lower-case header names: %s, accept key not the RFC 6455 value\n", *status); return 1; } } }
